@@ -16,6 +16,7 @@ the *sum* of all sizes rather than on each size; `SmallObject` demands ELF64.
 -/
 import ElfioVerif.Props.C04
 import ElfioVerif.Lemmas.LayoutSmall
+import ElfioVerif.Props.Compose2
 namespace ElfioVerif.C04
 open Gen
 
@@ -81,5 +82,34 @@ example : SmallObject exObj ∧
   intro i s hs ho hi
   have : ∀ t ∈ exObj.secs, t.index = 0 → ¬ t.Occ := by decide
   exact this s (List.mem_of_getElem? hs) hi ho
+
+/-! ### not done: `noWrap64InB` from bounds
+
+`Compose.noWrap64InB o hd` (Props/Compose2.lean) asks that in the *result* of the layout
+`addr + size` and `offset + size` of every section and `vaddr + memsz`, `offset + filesz` of every
+segment stay below `2^64`.  `SmallObject` is not enough for that (it does not bound addresses, on
+purpose), so the statement needs the additional bounds below.  What the proof needs on top of
+`Small.SmallInv` (Lemmas/LayoutSmall.lean), and is not proved here:
+
+ * offsets: every offset the writer assigns is a cursor value, hence `≤ 2^59` by `SmallInv.pot`
+   (needs `pot` strengthened from "potential ≤ B" to "every assigned offset ≤ B", e.g. via
+   `LayStep.fresh`, or sections with index 0 / never placed keep their input offset — which then
+   must be bounded in the input too: `offset < 2^62`);
+ * writer-assigned addresses `vaddr + (cursor − segStart)` (`wsdPlace_facts`): `< vaddr + 2^59`;
+ * the counters `st.mem`, `st.file` of `write_segment_data` (`wsd_mem_add`, `wsd_file_add`): each
+   step adds `size + gap < 2^41`, at most `2^16` members *per occurrence in the member list*, so a
+   bound on `g.secs.length` (say `< 2^16`) is needed as well; `segFinish` keeps the input `memsz`
+   when it is larger, so `memsz` must be bounded in the input;
+ * `segStart` of an offset-0 segment is 0 and of a PT_PHDR segment is `e_phoff`: small. -/
+
+/-- the additional input bounds under which `noWrap64InB` is expected to hold -/
+def SmallAddrs (o : Obj) : Prop :=
+  (∀ s ∈ o.secs, s.addr.toNat < 4611686018427387904 ∧ s.offset.toNat < 4611686018427387904) ∧
+  (∀ g ∈ o.segs, g.vaddr.toNat < 4611686018427387904 ∧ g.memsz.toNat < 4611686018427387904 ∧
+    g.secs.length < 65536)
+
+/-- open: the closed-form version of `Compose.noWrap64InB` -/
+def NoWrap64SmallStatement : Prop :=
+  ∀ (o : Obj) (hd : Bytes), SmallObject o → SmallAddrs o → Compose.noWrap64InB o hd = true
 
 end ElfioVerif.C04
